@@ -224,6 +224,20 @@ class Check:
             self.seed = int(os.environ.get('VERIF_SEED', '0'))
         except ValueError:
             self.seed = 0
+        # --replay <file>: default replay = re-run the check deterministically with the seed and tier recorded in
+        # the replay file and report whether the recorded input (its key) fails again.  Scripts with their own
+        # replay logic read self.replay themselves and set self.replay_handled = True.
+        self.replay_payload = None
+        self.replay_handled = False
+        if self.replay:
+            try:
+                self.replay_payload = json.load(open(self.replay))
+                self.seed = int(self.replay_payload.get('seed', self.seed))
+                if self.replay_payload.get('tier') in ('quick', 'thorough'):
+                    self.tier = self.replay_payload['tier']
+            except (OSError, ValueError) as e:
+                print(f'cannot read replay file {self.replay}: {e}')
+                sys.exit(2)
         self.t0 = time.time()
         self.obligations = 0          # theorems + in-kernel goals attempted
         self.discharged = 0
@@ -459,6 +473,13 @@ class Check:
               'violations': len(lines)}
         with open(os.path.join(VERIF, 'evidence', f'{self.pid}.json'), 'w') as f:
             json.dump(ev, f, indent=1, default=str)
+        if self.replay_payload is not None and not self.replay_handled:
+            key = self.replay_payload.get('key')
+            again = [f for f in self.failures if f['key'] == key] if key else []
+            if key:
+                print(f'REPLAY {self.replay}: recorded input ({key}) ' + ('FAILS again' if again else 'no longer fails'))
+            else:
+                print(f'REPLAY {self.replay}: broken obligations now: {[b["obligation"] for b in self.broken]}')
         for ln in lines:
             print(ln)
         if self.machinery_errors and not lines:
